@@ -5,8 +5,8 @@ C08 — executable models of the three handle mechanisms.
             member by member.  A `Cell` keeps the C++ union as ONE word `w` (object number while
             `id ≠ 0`, `next_free` position while `id = 0`), so the intrusive free list is threaded
             through the cells exactly as in the code.  Objects are numbers (`0` = `nullptr`).
-            `clear` follows the repaired code (patches/C08-01-…: the id counter is NOT reset);
-            `clearOld` is the function as it stood before the repair (used by the counterexample).
+            `clear` follows patches/C08-01 (the id counter is NOT reset; `clearOld` = before) and
+            `foreach` follows patches/C08-02 (by index, size re-checked, so callbacks may alloc/clear).
 * `Pool`  — `tbox::ObjectPool<T>` (modules/base/object_pool.hpp): the parked-block chain is a list of
             block identities (head = `free_header_`); `malloc` is a source of fresh identities.
 * `FdSys` — `tbox::util::Fd` (modules/util/fd.{h,cpp}): a heap of `Detail` records and handle slots
@@ -34,14 +34,23 @@ structure Cab where
   cells     : List Cell := []
   firstFree : Nat := sizeMax
   count     : Nat := 0
+  wrapped   : Bool := false     -- ghost: `allocId` has wrapped around at least once
+deriving Repr, DecidableEq
+
+/-- what a `foreach` callback (or the user between iterations) may do to the cabinet -/
+inductive CbAct where
+  | alloc (obj : Nat)
+  | update (t : Token) (obj : Nat)
+  | free (t : Token)
+  | clear
 deriving Repr, DecidableEq
 
 namespace Cab
 
 /-- `allocId` (wraps so that 0 is never handed out) -/
 def allocId (c : Cab) : Cab × Nat :=
-  let l := if c.lastId = sizeMax then 0 else c.lastId
-  ({ c with lastId := l + 1 }, l + 1)
+  if c.lastId = sizeMax then ({ c with lastId := 1, wrapped := true }, 1)
+  else ({ c with lastId := c.lastId + 1 }, c.lastId + 1)
 
 /-- `allocPos`; `none` = `cells_.at()` threw `std::out_of_range` -/
 def allocPos (c : Cab) : Option (Cab × Nat) :=
@@ -85,55 +94,69 @@ def free (c : Cab) (t : Token) : Cab × Nat :=
                 firstFree := t.pos,
                 count := if c.count = 0 then sizeMax else c.count - 1 }, o)
 
-/-- `clear()` as repaired: the id counter survives -/
+/-- `clear()` (patches/C08-01: the id counter survives) -/
 def clear (c : Cab) : Cab := { c with cells := [], firstFree := sizeMax, count := 0 }
 
-/-- `clear()` before the repair: `last_id_ = 0` as well -/
-def clearOld (_c : Cab) : Cab := { lastId := 0, cells := [], firstFree := sizeMax, count := 0 }
+/-- `clear()` before C08-01: `last_id_ = 0` as well -/
+def clearOld (c : Cab) : Cab := { c with lastId := 0, cells := [], firstFree := sizeMax, count := 0 }
 
 def size (c : Cab) : Nat := c.count
 
-def freeAll (c : Cab) : List Token → Cab
-  | [] => c
-  | t :: ts => ((c.free t).1).freeAll ts
+/-- one API call; the token is what `alloc` returned (`none` for the other calls / an exception) -/
+def act (c : Cab) : CbAct → Cab × Option Token
+  | .alloc o => c.alloc o
+  | .update t o => ((c.update t o).1, none)
+  | .free t => ((c.free t).1, none)
+  | .clear => (c.clear, none)
 
-/-- one iteration of the range-for in `foreach`: the callback is a removal script
-(`script k` = the tokens the k-th invocation frees) -/
-def eachStep (script : Nat → List Token) (st : Cab × List (Nat × Nat)) (p : Nat) : Cab × List (Nat × Nat) :=
+def runActs (c : Cab) : List CbAct → Cab
+  | [] => c
+  | a :: as => ((c.act a).1).runActs as
+
+/-- the tokens the `alloc`s of an action list return, in order (a null token for an exception) -/
+def actTokens (c : Cab) : List CbAct → List Token
+  | [] => []
+  | a :: as =>
+      let r := c.act a
+      match a with
+      | .alloc _ => r.2.getD {} :: r.1.actTokens as
+      | _ => r.1.actTokens as
+
+/-- one iteration of the loop in `foreach` (patches/C08-02: by index, `pos < cells_.size()`
+re-checked): the callback is a script (`script k` = what the k-th invocation does) -/
+def eachStep (script : Nat → List CbAct) (st : Cab × List (Nat × Nat)) (p : Nat) : Cab × List (Nat × Nat) :=
   match st.1.cells[p]? with
   | none => st
   | some cell =>
-      if cell.id ≠ 0 then (st.1.freeAll (script st.2.length), st.2 ++ [(p, cell.w)]) else st
+      if cell.id ≠ 0 then (st.1.runActs (script st.2.length), st.2 ++ [(p, cell.w)]) else st
 
-/-- `foreach(func)` with removals from inside the callback; returns the callbacks made, in order, as
-(cell position, object passed) -/
-def foreach (c : Cab) (script : Nat → List Token) : Cab × List (Nat × Nat) :=
+/-- `foreach(func)` with calls from inside the callback; only positions below the initial
+`cells_.size()` are considered.  Returns the callbacks made, in order, as (cell position, object) -/
+def foreach (c : Cab) (script : Nat → List CbAct) : Cab × List (Nat × Nat) :=
   (List.range c.cells.length).foldl (eachStep script) (c, [])
+
+/-- everything the callbacks of one `foreach` did, in order -/
+def eachActs (c : Cab) (script : Nat → List CbAct) : List CbAct :=
+  (List.range (c.foreach script).2.length).flatMap script
 
 end Cab
 
 /-- the operation language of one cabinet -/
 inductive CabOp where
-  | alloc (obj : Nat)
-  | update (t : Token) (obj : Nat)
-  | free (t : Token)
-  | clear
-  | each (script : Nat → List Token)
+  | act (a : CbAct)
+  | each (script : Nat → List CbAct)
 
 def Cab.step (c : Cab) : CabOp → Cab
-  | .alloc o => (c.alloc o).1
-  | .update t o => (c.update t o).1
-  | .free t => (c.free t).1
-  | .clear => c.clear
+  | .act a => (c.act a).1
   | .each f => (c.foreach f).1
 
 def Cab.run (c : Cab) : List CabOp → Cab
   | [] => c
   | op :: ops => (c.step op).run ops
 
-/-- the same machine with `clear()` as it stood before the repair -/
+/-- the same machine with `clear()` as it stood before C08-01 -/
 def Cab.stepOld (c : Cab) : CabOp → Cab
-  | .clear => c.clearOld
+  | .act .clear => c.clearOld
   | op => c.step op
 
 def Cab.runOld (c : Cab) : List CabOp → Cab
@@ -159,6 +182,7 @@ structure Pool where
   released : List Nat := []     -- blocks handed to ::free
   ctor     : Nat := 0           -- constructor / destructor runs of T
   dtor     : Nat := 0
+  leaked   : Nat := 0           -- objects still constructed when their pool was destroyed
 deriving Repr, DecidableEq
 
 namespace Pool
@@ -188,7 +212,8 @@ def free (p : Pool) (b : Nat) : Pool :=
 /-- `~ObjectPool()` followed by the construction of a new pool `ObjectPool(keep)` in the same
 environment -/
 def renew (p : Pool) (keep : Nat) : Pool :=
-  { keep := keep, nextBlk := p.nextBlk, released := p.parked ++ p.released, ctor := p.ctor, dtor := p.dtor }
+  { keep := keep, nextBlk := p.nextBlk, released := p.parked ++ p.released, ctor := p.ctor, dtor := p.dtor,
+    leaked := p.leaked }
 
 end Pool
 
@@ -206,6 +231,8 @@ inductive PoolOp where
   | alloc (h : Nat) (v : Nat)
   | free (h : Nat)
   | renew (keep : Nat)          -- frees every live object through the old pool first
+  | drop (keep : Nat)           -- destroys the pool while objects are live: `~ObjectPool()` runs no
+                                -- destructor and returns only the parked blocks; the objects are abandoned
 deriving Repr, DecidableEq
 
 def PoolSys.liveBlocks (s : PoolSys) : List Nat := s.slots.filterMap (fun o => o.map (·.1))
@@ -232,6 +259,9 @@ def PoolSys.step (s : PoolSys) : PoolOp → PoolSys × Option Nat
   | .renew k =>
       let s1 := s.freeSlots (List.range s.slots.length)
       ({ s1 with pool := s1.pool.renew k }, none)
+  | .drop k =>
+      ({ pool := { s.pool.renew k with leaked := s.pool.leaked + s.liveBlocks.length },
+         slots := List.replicate s.slots.length none }, none)
 
 def PoolSys.run (s : PoolSys) : List PoolOp → PoolSys
   | [] => s
@@ -375,5 +405,138 @@ def FdSys.step (s : FdSys) : FdOp → FdSys
 def FdSys.run (s : FdSys) : List FdOp → FdSys
   | [] => s
   | op :: ops => (s.step op).run ops
+
+/-! ## LifetimeTag / Watcher (modules/base/lifetime_tag.hpp)
+
+`LifetimeTag::Detail {alive, watcher_counter}` records live in a heap list (pointer = index); a tag
+slot holds the tag object's `d_` (`none` = no object in the slot), a watcher slot the watcher's `d_`
+(`none` = `nullptr`).  Every access to a record goes through `touch`, which raises `bad` when the
+record has been deleted (use-after-free / double delete) — the model of the memory error.
+Follows patches/C08-03 (copying a null watcher copies null) and C08-04 (`isNull()`). -/
+
+structure LDetail where
+  alive : Bool := true
+  cnt   : Int := 0          -- watcher_counter
+  freed : Bool := false     -- `delete d_` has run
+deriving Repr, DecidableEq
+
+structure LtSys where
+  details : List LDetail := []
+  tags    : List (Option Nat) := []
+  ws      : List (Option Nat) := []
+  bad     : Bool := false
+deriving Repr, DecidableEq
+
+def nLtTags : Nat := 4
+def nLtWs : Nat := 6
+
+def LtSys.init : LtSys := { tags := List.replicate nLtTags none, ws := List.replicate nLtWs none }
+
+namespace LtSys
+
+/-- read-modify-write of `*d`; touching a deleted (or never allocated) record is the memory error -/
+def touch (s : LtSys) (d : Nat) (f : LDetail → LDetail) : LtSys :=
+  match s.details[d]? with
+  | none => { s with bad := true }
+  | some det => if det.freed then { s with bad := true } else { s with details := s.details.set d (f det) }
+
+/-- `~Watcher()` applied to a `d_` value -/
+def wRelease (s : LtSys) : Option Nat → LtSys
+  | none => s
+  | some d => s.touch d fun det =>
+      let c := det.cnt - 1
+      if c = 0 ∧ det.alive = false then { det with cnt := c, freed := true } else { det with cnt := c }
+
+/-- `++d_->watcher_counter` -/
+def wInc (s : LtSys) : Option Nat → LtSys
+  | none => s
+  | some d => s.touch d fun det => { det with cnt := det.cnt + 1 }
+
+/-- `~LifetimeTag()` applied to a `d_` value -/
+def tRelease (s : LtSys) : Option Nat → LtSys
+  | none => s
+  | some d => s.touch d fun det =>
+      if det.cnt = 0 then { det with freed := true } else { det with alive := false }
+
+def tagOf (s : LtSys) (i : Nat) : Option Nat := (s.tags[i]?).join
+def wOf (s : LtSys) (w : Nat) : Option Nat := (s.ws[w]?).join
+def setW (s : LtSys) (w : Nat) (v : Option Nat) : LtSys := { s with ws := s.ws.set w v }
+def setT (s : LtSys) (i : Nat) (v : Option Nat) : LtSys := { s with tags := s.tags.set i v }
+
+/-- destroy the watcher in slot `w` and default-construct one there; also `reset()` -/
+def wDrop (s : LtSys) (w : Nat) : LtSys := (s.wRelease (s.wOf w)).setW w none
+
+/-- the (null) watcher in slot `w` starts watching `v`: `d_ = v; ++d_->watcher_counter` (C08-03:
+nothing to count when `v` is null) -/
+def wAttach (s : LtSys) (w : Nat) (v : Option Nat) : LtSys := (s.wInc v).setW w v
+
+def wSwap (s : LtSys) (a b : Nat) : LtSys :=
+  let da := s.wOf a
+  let db := s.wOf b
+  (s.setW a db).setW b da
+
+/-- destroy the tag object in slot `i` (if any) -/
+def tDrop (s : LtSys) (i : Nat) : LtSys := (s.tRelease (s.tagOf i)).setT i none
+
+/-- construct a tag in the empty slot `i`: `d_(new Detail)` -/
+def tCreate (s : LtSys) (i : Nat) : LtSys :=
+  { s with details := s.details ++ [{}], tags := s.tags.set i (some s.details.length) }
+
+/-- `isAlive()` / `operator bool`: `d_ != nullptr && d_->alive` (a read of `*d_`) -/
+def isAlive (s : LtSys) (w : Nat) : Bool :=
+  match s.wOf w with
+  | none => false
+  | some d => match s.details[d]? with
+      | some det => det.alive && !det.freed
+      | none => false
+
+/-- `isNull()` (C08-04: `d_ == nullptr`) -/
+def isNull (s : LtSys) (w : Nat) : Bool := (s.wOf w).isNone
+
+end LtSys
+
+inductive LtOp where
+  | tnew (i : Nat)            -- destroy slot i (if occupied), construct `LifetimeTag()`
+  | tdel (i : Nat)            -- destroy the tag in slot i
+  | tcopy (i j : Nat)         -- destroy slot i, copy- or move-construct it from tag j: a NEW detail
+  | tassign (i j : Nat)       -- copy/move assignment between two tags: nothing happens
+  | wnew (w : Nat)            -- destroy, default-construct
+  | wtag (w i : Nat)          -- destroy w, construct it from tag i   /  `w = tag`  (reset, bind, count)
+  | wcopyCtor (w v : Nat)     -- destroy w, copy-construct it from watcher v      (w ≠ v)
+  | wmoveCtor (w v : Nat)     -- destroy w, move-construct it from watcher v      (w ≠ v)
+  | wcopyAssign (w v : Nat)
+  | wmoveAssign (w v : Nat)
+  | wswap (a b : Nat)
+  | wreset (w : Nat)
+deriving Repr, DecidableEq
+
+/-- slot indices in range, distinct where the C++ needs two objects; ops that read a tag need it to exist -/
+def LtOp.ok (s : LtSys) : LtOp → Bool
+  | .tnew i | .tdel i => i < nLtTags
+  | .tcopy i j => i < nLtTags ∧ j < nLtTags ∧ i ≠ j ∧ (s.tagOf j).isSome
+  | .tassign i j => i < nLtTags ∧ j < nLtTags ∧ (s.tagOf i).isSome ∧ (s.tagOf j).isSome
+  | .wnew w | .wreset w => w < nLtWs
+  | .wtag w i => w < nLtWs ∧ i < nLtTags ∧ (s.tagOf i).isSome
+  | .wcopyCtor w v | .wmoveCtor w v => w < nLtWs ∧ v < nLtWs ∧ w ≠ v
+  | .wcopyAssign w v | .wmoveAssign w v | .wswap w v => w < nLtWs ∧ v < nLtWs
+
+def LtSys.step (s : LtSys) : LtOp → LtSys
+  | .tnew i => (s.tDrop i).tCreate i
+  | .tdel i => s.tDrop i
+  | .tcopy i _ => (s.tDrop i).tCreate i
+  | .tassign _ _ => s
+  | .wnew w => s.wDrop w
+  | .wtag w i => let s1 := s.wDrop w; s1.wAttach w (s1.tagOf i)
+  | .wcopyCtor w v => let s1 := s.wDrop w; s1.wAttach w (s1.wOf v)
+  | .wmoveCtor w v => (s.wDrop w).wSwap w v
+  | .wcopyAssign w v => if w = v then s else let s1 := s.wDrop w; s1.wAttach w (s1.wOf v)
+  | .wmoveAssign w v => if w = v then s else (s.wDrop w).wSwap w v
+  | .wswap a b => s.wSwap a b
+  | .wreset w => s.wDrop w
+
+/-- ops that are not applicable in the current state (a tag that does not exist) are skipped -/
+def LtSys.run (s : LtSys) : List LtOp → LtSys
+  | [] => s
+  | op :: ops => (if op.ok s then s.step op else s).run ops
 
 end Tbox.C08
